@@ -115,7 +115,7 @@ def _iinit_cases():
 
 # --------------------------------------------------------------------------- element access
 
-@contract('pyPRISM/core/MatrixArray.py::MatrixArray.__setitem__', props=['C13', 'C15', 'C07'])
+@contract('pyPRISM/core/MatrixArray.py::MatrixArray.__setitem__', props=['C13', 'C15', 'C07', 'C04'])
 def MatrixArray_setitem(self, key, val):
     type1, type2 = key
     if type1 not in self.typeMap:
@@ -153,7 +153,7 @@ def _setitem_cases():
                 yield 'rank=%d,key=%s-%s,val=%s' % (n, key[0], key[1], vk), build
 
 
-@contract('pyPRISM/core/MatrixArray.py::MatrixArray.__getitem__', props=['C13'])
+@contract('pyPRISM/core/MatrixArray.py::MatrixArray.__getitem__', props=['C13', 'C04'])
 def MatrixArray_getitem(self, key):
     type1, type2 = key
     if type1 not in self.typeMap:
